@@ -118,6 +118,16 @@ def run(cx):
         first = roots[0].body[0]
         ok = isinstance(first, ast.If) and "processed_symbols" in norm(first.test) and any(isinstance(x, ast.Continue) for x in first.body)
     cx.ob("R03a", roots[0] if roots else ver, ok, "every symbol of the grammar is a DFS root unless already examined" if ok else "not every symbol is used as a DFS root")
+    # the examined set starts as the terminals only: a non-terminal put there in advance is never walked
+    ps_name = next((norm(c.func.value) for c in walk_local(ver) if isinstance(c, ast.Call) and call_name(c) == "add" and "processed" in norm(c.func.value)), "processed_symbols")
+    inits = [(st, v) for st, v in assignments(ver, ps_name) if v is not None]
+    ok = len(inits) == 1 and norm(inits[0][1]) in ("set(self.terminals)", "set(terminals)", "set(self.terminals.copy())", "self.terminals.copy()", "{*self.terminals}")
+    cx.ob("R03a", inits[0][0] if inits else ver, ok, "the examined set initially holds the terminals only" if ok else
+          f"the examined set is initialised as `{norm(inits[0][1]) if inits else '?'}`: every non-terminal in it is skipped by the search without its productions being walked, "
+          f"so a cycle running through it is not found")
+    for m_ in [c for c in walk_local(ver) if isinstance(c, ast.Call) and call_name(c) in ("update", "__ior__") and norm(c.func.value) == ps_name] + \
+            [a for a in walk_local(ver) if isinstance(a, ast.AugAssign) and norm(a.target) == ps_name]:
+        cx.ob("R03a", m_, False, "symbols are added to the examined set in bulk (not after their productions were walked)")
     pa = [c for c in walk_local(ver) if isinstance(c, ast.Call) and call_name(c) == "add" and "processed" in norm(c.func.value)]
     ok = len(pa) == 1 and any(isinstance(e, ast.Compare) and isinstance(e.ops[0], ast.GtE) and pol and "len(prod_rules)" in norm(e.comparators[0]) for e, pol in facts(pa[0]))
     cx.ob("R03a", pa[0] if pa else ver, ok, "a symbol counts as examined only after all its productions were walked" if ok else "symbols are marked examined before all productions are walked")
